@@ -107,6 +107,18 @@ Theorem C14_insertion_inner_segments `{Sig} : forall E n ks e nds ts c w cnt w' 
 Proof. exact insert_vertices_inner. Qed.
 Print Assumptions C14_insertion_inner_segments.
 
+(** ... and on a boundary (one-dart) edge e -> b1: e -> fh_1 -> ... -> fh_k -> b1 (the second half of the spare darts is not
+    used), the 0-image of b1 is the last new dart, nothing else changes. *)
+Theorem C14_insertion_boundary_segments `{Sig} : forall E n ks e nds ts c w cnt w' cnt',
+  let b1 := beta w 1 e in let fh := firstn (length ts) nds in
+  beta w 2 e = 0 -> ts <> [] -> length nds = (2 * length ts)%nat ->
+  NoDup (e :: b1 :: fh) -> b1 <> 0 ->
+  run E (insert_vertices_on_edge n ks e nds ts) c w cnt = (Done tt, w', cnt') ->
+  chain (beta w') e (fh ++ [b1]) /\ beta w' 0 b1 = last fh e /\
+  (forall i d, ~ In d (e :: b1 :: fh) -> beta w' i d = beta w i d).
+Proof. exact insert_vertices_boundary. Qed.
+Print Assumptions C14_insertion_boundary_segments.
+
 (** Non-vacuity: the two-dart edge (1 | 2) with 1 -> 3 and 2 -> 4, two positions and the spare darts 5 6 | 7 8 meet the
     premises of the pure specification, and the pure function gives 1 -> 5 -> 6 -> 3, 2 -> 7 -> 8 -> 4, glued
     2 | 6, 7 | 5, 8 | 1. *)
